@@ -612,11 +612,11 @@ for _cls in (0, 1, 2):
         GL(_lay, _cls, ["C02"], tier="thorough", mem="medium")
 GL("l2a", 2, ["C02"], tier="thorough", mem="heavy", timeout=3600, weak=True)
 
-QS = {"C03": "quick", "C16": "quick", "C10": "quick", "*": "thorough"}
+QS = {"C03": "quick", "C16": "quick", "C10": "quick", "C01": "quick", "*": "thorough"}
 for _lay in ("l2a", "l2b", "l3", "l1", "l0b", "l2c"):
     _q = QS if _lay == "l2a" else "thorough"
     for _op in ("next", "prev", "current", "clonenext", "cloneprev"):
-        GS(_op, _lay, ["C03", "C16", "C10"], tier=_q)
+        GS(_op, _lay, ["C03", "C16", "C10"] + (["C01"] if _op in ("next", "prev") else []), tier=_q)
 for _lay in ("l2a", "l1", "l0b"):
     for _op in ("first", "last"):
         GS(_op, _lay, ["C03", "C16", "C10"], mem="medium", tier={"C03": "quick", "*": "thorough"} if _lay == "l2a" else "thorough")
@@ -666,9 +666,7 @@ for _nm, _d in (("c18_block_order_panics", "second insert with a key <= the firs
 
 # ------------------------------------------------------------------------------------------- L1 writer
 GEN_WRITER = []
-WRITER_FUNCS = ["Writer::insert", "Writer::into_inner", "WriterBuilder::build/index_levels/index_key_interval", "writer::compress_and_write_block",
-                "compression::compress(None)", "BlockWriter::insert/finish/reset/current_size_estimate/last_key", "CountWrite::write/count/into_inner",
-                "Metadata::write_into", "byteorder write_u64/u8/u32", "std Write::write_all"]
+WRITER_FUNCS = ["Writer::insert", "Writer::into_inner", "CountWrite::write/count/into_inner/new", "std Write::write_all"]
 # (n, key lengths, value lengths, block threshold, interval, levels)
 WRITER_CFGS = [
     ("empty_l0", 0, [0, 0, 0, 0], [0, 0, 0, 0], 24, 2, 0, True),
@@ -680,7 +678,7 @@ WRITER_CFGS = [
     ("four_cut_l1_i2", 4, [1, 1, 1, 2], [1, 1, 1, 1], 22, 2, 1, True),
     ("four_cut_l2_i1", 4, [1, 1, 1, 1], [1, 1, 1, 1], 16, 1, 2, True),   # every entry its own block; level-2 blocks cut too
     ("four_cut_l2_i8", 4, [2, 2, 2, 2], [0, 0, 0, 0], 30, 8, 2, False),
-    ("four_cut_l3_i1", 4, [1, 1, 1, 1], [0, 0, 0, 0], 16, 1, 3, False),   # two index levels cut in the same insert
+    ("four_cut_l3_i1", 4, [1, 1, 1, 1], [0, 0, 0, 0], 16, 1, 3, True),   # two index levels cut in the same insert
     ("big_entry_l1", 2, [2, 2, 0, 0], [2, 2, 0, 0], 12, 2, 1, False),       # every entry larger than the block threshold
 ]
 for _nm, _n, _kl, _vl, _b, _iv, _lv, _q in WRITER_CFGS:
@@ -699,10 +697,25 @@ for _nm, _n, _kl, _vl, _b, _iv, _lv, _q in WRITER_CFGS:
                                "(last key -> child offset, u64 BE) per level, blocks cut exactly when the size estimate reaches the threshold (levels >= 2 too, "
                                "0 and 1 never), 22-byte trailer last; entries_count = inserts; exactly one flush",
                        functions=WRITER_FUNCS,
-                       stubs=["sink = CheckSink (compares each write with the expected stream at the running position)"],
+                       stubs=["BlockWriter::{insert,current_size_estimate,last_key} -> abstract block writer (no heap; discharged by c09_block_ref_*)",
+                              "compress_and_write_block -> abs_cwb (compares length prefix and every framed entry with the reference stream at the "
+                              "running position; advances the real CountWrite)", "Metadata::write_into -> trailer field comparison (bytes: c09_trailer_bytes_v2)",
+                              "sink = CountSink"],
                        bounds="%d entries, key lengths %s, value lengths %s (concrete), contents symbolic strictly ascending; block threshold %d (field set "
                               "directly), interval %d, index_levels %d; unwind 10" % (_n, _kl[:_n], _vl[:_n], _b, _iv, _lv),
-                       outside="symbolic lengths (Vec growth over symbolic sizes exceeds 20 GB), codecs, > 4 entries"))
+                       outside="real BlockWriters inside the real Writer (exceeds 20 GB from two inserts or two index levels on), symbolic lengths, codecs, > 4 entries"))
+
+
+for _lv in (0, 3):
+    HARNESSES.append(H("writer::verif_h::c01_depth_%d" % _lv, ["C01"], kind="K", layer="L1", timeout=900,
+                       decides="finishing an empty writer with %d index levels: no arithmetic overflow, exactly one (empty root) block at offset 0, "
+                               "trailer records %d levels" % (_lv, _lv),
+                       functions=["Writer::into_inner"], stubs=["abstract block writers, abs_cwb, trailer recorder"],
+                       bounds="index_levels = %d (255 does not finish: 256 loop iterations exceed 20 GB; the index_levels(255) overflow fixed by "
+                              "d9d2b5f is reproduced natively only)" % _lv))
+HARNESSES.append(H("writer::verif_h::c15_clamp", ["C15"], kind="K", layer="L0", timeout=300,
+                   decides="WriterBuilder::block_size(s) stores max(1024, s) for every usize s; the default is 8192 (real constants, no override)",
+                   functions=["WriterBuilder::block_size", "WriterBuilder::new"], bounds="s: all usize"))
 
 
 def generate(kit_dst):
@@ -846,6 +859,30 @@ PROPS = {
                 text="Every byte string ending in a V1 trailer opens as FormatV1 with the fields at the V1 positions (all field values "
                      "symbolic); write_into(V1) is its inverse; cursor/iterator glue is shown not to depend on the file version.",
                 note="V1 files with real codecs are outside (codecs not encodable). No V1 writer exists; the reference encoder provides the trailer."),
+    "C01": dict(claimed=True, design="§5 C01",
+                text="Decided as a chain of solver-checked refinements instead of one run (the two-entry write->read pipeline does not terminate under CBMC): "
+                     "(L1) the real Writer::insert/into_inner over abstract block writers emits exactly the reference encoding's blocks, offsets and trailer "
+                     "fields for symbolic contents and configurations with cuts at every level; (L2) the real BlockWriter = reference block bytes and the real "
+                     "Block::new/entry_at/BlockCursor recover every entry of reference blocks; (L3) the real cursor glue scans AC-files forward and backward "
+                     "exactly (step induction from every state + fresh base case, empty files at depth 0 and 2); trailer round trip for all field values.",
+                note="Composition (Ref links L1 and L2, AC links L2 and L3) is the stated paper step. Codecs other than None, > 4 entries through the writer, "
+                     "entries >= 128 bytes and index_levels 4..255 through into_inner are outside."),
+    "C09": dict(claimed=True, design="§5 C09",
+                text="Byte-level conformance to an independent encoder written from the format text: block bytes (framing, offset table, count) from the real "
+                     "BlockWriter; block sequence, length prefixes, index entries (last key -> u64 BE offset) and stream positions from the real Writer logic; "
+                     "the 22 trailer bytes from the real Metadata::write_into; the independent decoder side is the real Block::new over reference bytes.",
+                note="grenad 0.4.7 interoperability is claimed only through format identity with the reference encoder (its block/trailer modules are not "
+                     "executed in this revision); codecs outside."),
+    "C15": dict(claimed=True, design="§5 C15",
+                text="Clamp decided for every usize at the real constant; size estimate = exact finished size (real BlockWriter); cut rule decided on the real "
+                     "Writer logic: the emitted layout equals the reference layout, in which every data block and every index block below level 1 reaches "
+                     "the threshold only with its last entry.",
+                note="Threshold scaled through the private field (12..64 bytes) so that 1-2 byte entries cut blocks; the 1024 clamp is checked separately."),
+    "C18": dict(claimed=True, design="§5 C18",
+                text="The strict-order assertion of the real BlockWriter::insert decided for all pairs of keys of length 0..=2 (panics on every path iff the "
+                     "second key is not greater; accepted otherwise; cleared by finish/reset); index blocks receive child last keys through the same checked "
+                     "insert (abstract writers mirror the assertion, the writer harnesses run with strictly ascending inserts).",
+                note="Out-of-order inserts through the whole Writer are covered by composition (data and index inserts all go through BlockWriter::insert), not run."),
     "C02": dict(claimed=True, design="§5 C02",
                 text="Layered, each layer decided by the solver over all keys/probes inside the bound: (L2) the real in-block ceiling/floor search equals the "
                      "sorted-array model from every pre-position, probe length 0..=3; (L3) the real multi-level seek glue over abstract blocks returns the exact "
